@@ -41,7 +41,8 @@ class OsuToSM(ConvertBase):
         sms.background = osu.background_file_name
         sms.sample_start = osu.preview_time
         sms.sample_length = 10
-        sms.offset = 0.0
+        # The file offset is where the first tempo point (beat 0) sits
+        sms.offset = float(sm.bpms.offset.min()) if len(sm.bpms) else 0.0
 
         sm.description = osu.version
         sm.chart_type = SMMapChartTypes.get_type(osu.stack().column.max() + 1)
